@@ -50,6 +50,8 @@ def cases(draw):
         is_root = lvl == n - 1
         avail = r.sample(BLOCKS, r.randint(1, 4))
         t = {"pre": r.choice(["", "PRE", "p "]) if lvl == 0 and n > 1 else "", "items": _items(r, 2, avail, False, is_root, f"{lvl}")}
+        if not is_root and r.random() < 0.2:
+            t["wrap"] = r.choice(sorted(R.EXTENDS_WRAPS))
         chain.append(t)
     fault = r.choice([None] * 14 + ["cycle", "duplicate", "duplicate", "endblock", "endblock", "matching"])
     if fault == "cycle" and n == 1:
